@@ -171,3 +171,295 @@ def layer_flux_euler2d(ctx):
             cases.append(dict(op=op, what='euler2d/' + name, inp=dict(gamma=g, L=(L[0],) + VL + (L[2],), R=(R[0],) + VR + (R[2],), n=nrm),
                               f=f, scale=[s3[0], s3[1], s3[1], s3[2]], branch=name + ':n=%s' % ('x' if nrm[0] else 'y')))
     return run_cases(ctx, 'L-flux-euler2d', cases)
+
+
+# ------------------------------------------------------------------------ conversions / variables
+
+EVAR = {'density': 'eDensity', 'pressure': 'ePressure', 'velocity': 'eVelocity', 'velocitymag': 'eVelocityMag',
+        'kinetic_energy': 'eKinetic', 'kinetic-energy': 'eKinetic', 'asound': 'eAsound', 'mach': 'eMach',
+        'entropy': 'eEntropy', 'enthalpy': 'eEnthalpy', 'ptot': 'ePtot', 'rttot': 'eRttot', 'htot': 'eHtot',
+        'massflow': 'eMassflow'}
+E2VAR = {'density': 'eDensity2', 'pressure': 'e2Pressure', 'velocitymag': 'e2VelocityMag',
+         'kinetic_energy': 'e2Kinetic', 'kinetic-energy': 'e2Kinetic', 'asound': 'e2Asound', 'mach': 'e2Mach',
+         'entropy': 'e2Entropy', 'enthalpy': 'e2Enthalpy', 'ptot': 'e2Ptot', 'rttot': 'e2Rttot', 'htot': 'e2Htot',
+         'velocity_x': 'e2VelocityX', 'velocity_y': 'e2VelocityY'}
+SWVAR = {'height': 'swHeight', 'massflow': 'swMassflow', 'velocity': 'swVelocity'}
+
+
+def var_scale(name, g, r, vmag, p):
+    c = np.sqrt(g * p / r)
+    E = p / (g - 1) + .5 * r * vmag ** 2
+    return {'density': r, 'pressure': E * (g - 1) + p, 'velocity': vmag + 1e-300 + c * 1e-6, 'velocitymag': vmag + c * 1e-6,
+            'kinetic_energy': E, 'kinetic-energy': E, 'asound': c * (1 + (vmag / c) ** 2), 'mach': (vmag / c + 1e-6) * (1 + (vmag / c) ** 2),
+            'entropy': 1.0 + abs(np.log(p / r ** g)) / (g - 1) + (vmag / c) ** 2, 'enthalpy': (E + p) / r, 'ptot': (p + E) * (1 + (vmag / c) ** 2) ** 4,
+            'rttot': (E + p) / r, 'htot': (E + p) / r, 'massflow': r * (vmag + c * 1e-6),
+            'velocity_x': vmag + c * 1e-6, 'velocity_y': vmag + c * 1e-6}.get(name, 1.0)
+
+
+def layer_prim_euler(ctx):
+    cases = []
+    m0 = impl.euler.euler1d()
+    names = sorted(m0.list_var())
+    for i in range(ctx.n(40, 800)):
+        g = gens.gamma(ctx.rng)
+        r, u, p = gens.euler_state(ctx.rng, g)
+        if i % 9 == 0:
+            u = 0.0
+        m = impl.euler.euler1d(gamma=g)
+        E = p / (g - 1) + .5 * r * u * u
+        mo = r * u
+        W = [np.array([r]), np.array([u]), np.array([p])]
+        Q = [np.array([r]), np.array([mo]), np.array([E])]
+        cases.append(dict(op="k ePrim2cons %s" % qs([g, r, u, p]), what='euler1d/prim2cons', inp=dict(gamma=g, W=(r, u, p)),
+                          f=(lambda m=m, W=W: flat(m.prim2cons(W))), scale=[r, r * abs(u) + 1e-300, E]))
+        cases.append(dict(op="k eCons2prim %s" % qs([g, r, mo, E]), what='euler1d/cons2prim', inp=dict(gamma=g, Q=(r, mo, E)),
+                          f=(lambda m=m, Q=Q: flat(m.cons2prim(Q))), scale=[r, abs(u) + np.sqrt(g * p / r) * 1e-6, E * (g - 1) + p]))
+        for name in names:
+            kn = EVAR.get(name, 'unmodelled-' + name)
+            cases.append(dict(op="k %s %s" % (kn, qs([g, r, mo, E])), what='euler1d/var/' + name, inp=dict(gamma=g, Q=(r, mo, E)),
+                              f=(lambda m=m, Q=Q, name=name: shape1(m.nameddata(name, Q), 1)), scale=var_scale(name, g, r, abs(u), p),
+                              branch=name + (':u<0' if u < 0 else ':u>=0')))
+    return run_cases(ctx, 'L-prim-euler', cases)
+
+
+def shape1(v, n):
+    """scalar named quantities must come back with one value per cell"""
+    v = np.asarray(v, dtype=float)
+    if v.shape != (n,):
+        raise ValueError("shape %r instead of (%d,)" % (v.shape, n))
+    return v
+
+
+def layer_prim_euler2d(ctx):
+    cases = []
+    m0 = impl.euler.euler2d()
+    names = sorted(m0.list_var())
+    for i in range(ctx.n(40, 800)):
+        g = gens.gamma(ctx.rng)
+        r, v, p = gens.euler_state(ctx.rng, g)
+        th = ctx.rng.uniform(0, 2 * np.pi)
+        ux, uy = float(abs(v) * np.cos(th)), float(abs(v) * np.sin(th))
+        if i % 9 == 0:
+            ux = 0.0
+        if i % 9 == 1:
+            uy = 0.0
+        m = impl.euler.euler2d(gamma=g)
+        E = p / (g - 1) + .5 * r * (ux * ux + uy * uy)
+        mx, my = r * ux, r * uy
+        W = [np.array([r]), np.array([[ux], [uy]]), np.array([p])]
+        Q = [np.array([r]), np.array([[mx], [my]]), np.array([E])]
+        vm = np.hypot(ux, uy)
+        c = np.sqrt(g * p / r)
+        cases.append(dict(op="k e2Prim2cons %s" % qs([g, r, ux, uy, p]), what='euler2d/prim2cons', inp=dict(gamma=g, W=(r, ux, uy, p)),
+                          f=(lambda m=m, W=W: flat(m.prim2cons(W))), scale=[r, r * vm + 1e-300, r * vm + 1e-300, E]))
+        cases.append(dict(op="k e2Cons2prim %s" % qs([g, r, mx, my, E]), what='euler2d/cons2prim', inp=dict(gamma=g, Q=(r, mx, my, E)),
+                          f=(lambda m=m, Q=Q: flat(m.cons2prim(Q))), scale=[r, vm + c * 1e-6, vm + c * 1e-6, E * (g - 1) + p]))
+        for name in names:
+            if name == 'velocity':   # vector quantity: both components
+                cases.append(dict(op="k e2VelocityX %s" % qs([g, r, mx, my, E]), what='euler2d/var/velocity[0]', inp=dict(gamma=g, Q=(r, mx, my, E)),
+                                  f=(lambda m=m, Q=Q: np.asarray(m.nameddata('velocity', Q))[0]), scale=vm + c * 1e-6))
+                cases.append(dict(op="k e2VelocityY %s" % qs([g, r, mx, my, E]), what='euler2d/var/velocity[1]', inp=dict(gamma=g, Q=(r, mx, my, E)),
+                                  f=(lambda m=m, Q=Q: np.asarray(m.nameddata('velocity', Q))[1]), scale=vm + c * 1e-6))
+                continue
+            if name == 'density':
+                kn, args = 'eDensity', [g, r, mx, E]
+            else:
+                kn, args = E2VAR.get(name, 'unmodelled-' + name), [g, r, mx, my, E]
+            cases.append(dict(op="k %s %s" % (kn, qs(args)), what='euler2d/var/' + name, inp=dict(gamma=g, Q=(r, mx, my, E)),
+                              f=(lambda m=m, Q=Q, name=name: shape1(m.nameddata(name, Q), 1)), scale=var_scale(name, g, r, vm, p), branch=name))
+    return run_cases(ctx, 'L-prim-euler2d', cases)
+
+
+def layer_prim_misc(ctx):
+    """shallow water, convection, Burgers conversions and variables; nozzle massflow"""
+    cases = []
+    for i in range(ctx.n(40, 600)):
+        g = float(ctx.rng.choice([9.81, 1.0]))
+        h = gens.loguni(ctx.rng, 1e-3, 1e3); u = float(ctx.rng.uniform(-3, 3) * np.sqrt(g * h))
+        m = impl.shallowwater.shallowwater1d(g=g)
+        qv = h * u
+        cases.append(dict(op="k swPrim2cons %s" % qs([h, u]), what='sw/prim2cons', inp=dict(h=h, u=u),
+                          f=(lambda m=m, h=h, u=u: flat(m.prim2cons([np.array([h]), np.array([u])]))), scale=[h, h * abs(u) + 1e-300]))
+        cases.append(dict(op="k swCons2prim %s" % qs([h, qv]), what='sw/cons2prim', inp=dict(h=h, q=qv),
+                          f=(lambda m=m, h=h, qv=qv: flat(m.cons2prim([np.array([h]), np.array([qv])]))), scale=[h, abs(u) + 1e-300]))
+        for name in sorted(m.list_var()):
+            cases.append(dict(op="k %s %s" % (SWVAR.get(name, 'unmodelled-' + name), qs([h, qv])), what='sw/var/' + name, inp=dict(h=h, q=qv),
+                              f=(lambda m=m, h=h, qv=qv, name=name: shape1(m.nameddata(name, [np.array([h]), np.array([qv])]), 1)),
+                              scale=max(h, abs(qv), abs(u)), branch='sw:' + name))
+    r = run_cases(ctx, 'L-prim-misc', cases)
+    # identity conversions (convection, Burgers) and the nozzle massflow are checked directly (no arithmetic)
+    for i in range(ctx.n(10, 100)):
+        x = ctx.rng.normal(size=5)
+        for nm, m in (('convection', impl.convection.model(1.5)), ('burgers', impl.burgers.model())):
+            ok, out = impl.guarded(lambda: (np.asarray(m.cons2prim([x.copy()])[0]), np.asarray(m.prim2cons([x.copy()])[0])))
+            r.compare_exact(nm + '/conversions', dict(x=x.tolist()), (out[0].tolist(), out[1].tolist()) if ok else out, (x.tolist(), x.tolist()))
+        ok, out = impl.guarded(lambda: np.asarray(impl.convection.model(1.5).nameddata('q', [x.copy()])).tolist())
+        r.compare_exact('convection/var/q', dict(x=x.tolist()), out, x.tolist())
+    return r
+
+
+# --------------------------------------------------------------------------------- boundary kernels
+
+def bc_cases_euler(ctx, n):
+    """(name, dir, interior state, params) over every registered 1D Euler condition, both sides"""
+    m0 = impl.euler.euler1d()
+    out = []
+    for name in sorted(m0._bcdict.dict.keys()):
+        for i in range(n):
+            g = gens.gamma(ctx.rng)
+            d = int(ctx.rng.choice([-1, 1]))
+            r, u, p = gens.euler_state(ctx.rng, g, wide=(i % 2 == 0), mach=float(ctx.rng.uniform(-0.95, 0.95)) if i % 4 else None)
+            c = np.sqrt(g * p / r)
+            M = u / c
+            fac = float(ctx.rng.choice([1.0, 1.0, ctx.rng.uniform(0.7, 1.6)]))
+            ptot = p * (1 + .5 * (g - 1) * M * M) ** (g / (g - 1)) * fac
+            rttot = p / r * (1 + .5 * (g - 1) * M * M) * float(ctx.rng.choice([1.0, ctx.rng.uniform(0.7, 1.5)]))
+            pext = p * float(ctx.rng.choice([1.0, ctx.rng.uniform(0.5, 2.0)]))
+            par = {}
+            if name == 'insub_cbc':
+                # regime of the characteristic inlet: positive discriminant (subsonic inflow reachable)
+                inv = u + d * 2 * c / (g - 1)
+                while g * (g + 1) / (g - 1) * rttot - .5 * (g - 1) * inv ** 2 <= 0.05 * inv ** 2:
+                    rttot *= 1.5
+            if name in ('insub', 'insub_cbc'):
+                par = dict(ptot=ptot, rttot=rttot)
+            elif name == 'insup':
+                par = dict(ptot=ptot, rttot=rttot, p=pext)
+            elif name.startswith('outsub'):
+                par = dict(p=pext)
+            elif name == 'dirichlet':
+                par = dict(prim=[np.array([r * 1.1]), np.array([u + 0.1]), np.array([p * 0.9])])
+            out.append((name, d, g, (r, u, p), par))
+    return out
+
+
+EBC = {'sym': ('eBcSym', lambda g, d, W, P: list(W)),
+       'insub': ('eBcInsub', lambda g, d, W, P: [g, d, P['ptot'], P['rttot']] + list(W)),
+       'insub_cbc': ('eBcInsubCbc', lambda g, d, W, P: [g, d, P['ptot'], P['rttot']] + list(W)),
+       'insup': ('eBcInsup', lambda g, d, W, P: [g, d, P['ptot'], P['rttot'], P['p']]),
+       'outsub': ('eBcOutsub', lambda g, d, W, P: [P['p']] + list(W)),
+       'outsub_prim': ('eBcOutsub', lambda g, d, W, P: [P['p']] + list(W)),
+       'outsub_qtot': ('eBcOutsubQtot', lambda g, d, W, P: [g, d, P['p']] + list(W)),
+       'outsub_rh': ('eBcOutsubRh', lambda g, d, W, P: [g, d, P['p']] + list(W)),
+       'outsub_nrcbc': ('eBcOutsubNrcbc', lambda g, d, W, P: [g, d, P['p']] + list(W)),
+       'outsup': ('eBcOutsup', lambda g, d, W, P: list(W))}
+
+
+def layer_bcker_euler(ctx):
+    cases = []
+    for (name, d, g, W, par) in bc_cases_euler(ctx, ctx.n(24, 500)):
+        m = impl.euler.euler1d(gamma=g)
+        r, u, p = W
+        c = np.sqrt(g * p / r)
+        sc = [r * 4, (abs(u) + c) * 4, (p + par.get('p', 0) + par.get('ptot', 0)) * 4]
+        if name == 'dirichlet':
+            f = (lambda m=m, d=d, W=W, par=par: flat(m.namedBC('dirichlet', d, [np.array([x]) for x in W], par)))
+            cases.append(dict(op="k eBcOutsup %s" % qs([float(par['prim'][0][0]), float(par['prim'][1][0]), float(par['prim'][2][0])]),
+                              what='euler1d/bc/dirichlet', inp=dict(dir=d, W=W), f=f, scale=sc, branch='dirichlet:%+d' % d))
+            continue
+        if name not in EBC:
+            cases.append(dict(op="k unmodelled-bc-%s" % name, what='euler1d/bc/' + name, inp=dict(dir=d), f=lambda: [0.0], scale=1.0))
+            continue
+        kn, argf = EBC[name]
+        jpar = {k: v for k, v in par.items()}
+        cases.append(dict(op="k %s %s" % (kn, qs(argf(g, d, W, par))), what='euler1d/bc/' + name,
+                          inp=dict(gamma=g, dir=d, W=W, param=jpar),
+                          f=(lambda m=m, name=name, d=d, W=W, par=par: flat(m.namedBC(name, d, [np.array([x]) for x in W], par))),
+                          scale=sc, branch=name + ':%+d' % d))
+    # shallow water
+    ms = impl.shallowwater.shallowwater1d()
+    for name in sorted(ms._bcdict.dict.keys()):
+        for i in range(ctx.n(6, 60)):
+            h = gens.loguni(ctx.rng, 1e-2, 1e2); u = float(ctx.rng.normal()); d = int(ctx.rng.choice([-1, 1]))
+            kn = {'sym': 'swBcSym', 'inf': 'swBcInf'}.get(name)
+            if name == 'dirichlet':
+                par = dict(prim=[np.array([h * 2]), np.array([u - 1])])
+                cases.append(dict(op="k swBcInf %s" % qs([h * 2, u - 1]), what='sw/bc/dirichlet', inp=dict(dir=d, h=h, u=u),
+                                  f=(lambda d=d, h=h, u=u, par=par: flat(ms.namedBC('dirichlet', d, [np.array([h]), np.array([u])], par))), scale=[h * 2, abs(u) + 1]))
+                continue
+            cases.append(dict(op="k %s %s" % (kn or ('unmodelled-bc-' + name), qs([h, u])), what='sw/bc/' + name, inp=dict(dir=d, h=h, u=u),
+                              f=(lambda name=name, d=d, h=h, u=u: flat(ms.namedBC(name, d, [np.array([h]), np.array([u])], {}))),
+                              scale=[h, abs(u) + 1e-300], branch='sw-' + name + ':%+d' % d))
+    return run_cases(ctx, 'L-bcker-euler', cases)
+
+
+def layer_bcker_euler2d(ctx):
+    cases = []
+    m0 = impl.euler.euler2d()
+    normals = [(1.0, 0.0), (-1.0, 0.0), (0.0, 1.0), (0.0, -1.0)]
+    for name in sorted(m0._bcdict.dict.keys()):
+        for i in range(ctx.n(16, 300)):
+            g = gens.gamma(ctx.rng)
+            nrm = normals[i % 4]
+            r, v, p = gens.euler_state(ctx.rng, g, wide=(i % 2 == 0), mach=float(ctx.rng.uniform(0, 2.5)))
+            th = ctx.rng.uniform(0, 2 * np.pi)
+            ux, uy = float(abs(v) * np.cos(th)), float(abs(v) * np.sin(th))
+            c = np.sqrt(g * p / r); M = abs(v) / c
+            ptot = p * (1 + .5 * (g - 1) * M * M) ** (g / (g - 1)) * float(ctx.rng.choice([1.0, ctx.rng.uniform(0.7, 1.6)]))
+            rttot = p / r * (1 + .5 * (g - 1) * M * M) * float(ctx.rng.choice([1.0, ctx.rng.uniform(0.7, 1.5)]))
+            pext = p * float(ctx.rng.choice([1.0, ctx.rng.uniform(0.5, 2.0)]))
+            m = impl.euler.euler2d(gamma=g)
+            W = [np.array([r]), np.array([[ux], [uy]]), np.array([p])]
+            d = np.array([[nrm[0]], [nrm[1]]])
+            sc = [r * 4 + ptot / rttot, (abs(v) + c) * 6, (abs(v) + c) * 6, (p + pext + ptot) * 4]
+            def call(par, m=m, name=name, d=d, W=W):
+                out = m.namedBC(name, d, W, par)
+                return np.array([np.ravel(out[0])[0], np.asarray(out[1])[0, 0], np.asarray(out[1])[1, 0], np.ravel(out[2])[0]])
+            if name == 'sym':
+                op, par = "k e2BcSym %s" % qs([nrm[0], nrm[1], r, ux, uy, p]), {}
+            elif name == 'insub':
+                par = dict(ptot=ptot, rttot=rttot); op = "k e2BcInsub %s" % qs([g, nrm[0], nrm[1], ptot, rttot, r, ux, uy, p])
+            elif name == 'insup':
+                par = dict(ptot=ptot, rttot=rttot, p=pext)
+                if i % 3 == 0:
+                    ang = float(ctx.rng.choice([0.0, 90.0, 180.0, 30.0, -45.0])); par['angle'] = ang
+                    dx, dy = float(np.cos(np.deg2rad(ang))), float(np.sin(np.deg2rad(ang)))
+                else:
+                    dx, dy = -nrm[0], -nrm[1]
+                op = "k e2BcInsup %s" % qs([g, dx, dy, ptot, rttot, pext])
+            elif name == 'outsub':
+                par = dict(p=pext); op = "k e2BcOutsub %s" % qs([pext, r, ux, uy, p])
+            elif name == 'outsup':
+                par = {}; op = "k e2BcOutsup %s" % qs([r, ux, uy, p])
+            elif name == 'dirichlet':
+                par = dict(prim=[np.array([r * 2]), np.array([[ux + 1], [uy - 1]]), np.array([p * 3])])
+                op = "k e2BcOutsup %s" % qs([r * 2, ux + 1, uy - 1, p * 3])
+            else:
+                par = {}; op = "k unmodelled-bc-%s" % name
+            cases.append(dict(op=op, what='euler2d/bc/' + name, inp=dict(gamma=g, n=nrm, W=(r, ux, uy, p), param={k: v for k, v in par.items() if k != 'prim'}),
+                              f=(lambda call=call, par=par: call(par)), scale=sc, branch=name + ':n=%+d,%+d' % (nrm[0], nrm[1])))
+    return run_cases(ctx, 'L-bcker-euler2d', cases)
+
+
+# -------------------------------------------------------------------------------------- time steps
+
+def layer_dt(ctx):
+    cases = []
+    for i in range(ctx.n(40, 600)):
+        cfl = float(ctx.rng.choice([0.5, 1.0, 0.1, ctx.rng.uniform(0.01, 100)])); dx = gens.loguni(ctx.rng, 1e-4, 10)
+        a = float(ctx.rng.choice([1.0, -2.0, ctx.rng.normal() * 3 + 0.01]))
+        m = impl.convection.model(a)
+        cases.append(dict(op="k convDt %s" % qs([a, cfl, dx]), what='convection/timestep', inp=dict(a=a, cfl=cfl, dx=dx),
+                          f=(lambda m=m, cfl=cfl, dx=dx: m.timestep([np.array([0.3])], np.array([dx]), cfl)), scale=cfl * dx / abs(a), branch='conv'))
+        u = float(ctx.rng.normal() * 10.0 ** ctx.rng.integers(-2, 3)) or 1.0
+        mb = impl.burgers.model()
+        cases.append(dict(op="k burgersDt %s" % qs([cfl, dx, u]), what='burgers/timestep', inp=dict(u=u, cfl=cfl, dx=dx),
+                          f=(lambda mb=mb, cfl=cfl, dx=dx, u=u: mb.timestep([np.array([u])], np.array([dx]), cfl)), scale=cfl * dx / abs(u), branch='burgers'))
+        g = float(ctx.rng.choice([9.81, 1.0])); h = gens.loguni(ctx.rng, 1e-3, 1e3); us = float(ctx.rng.uniform(-3, 3) * np.sqrt(g * h))
+        ms = impl.shallowwater.shallowwater1d(g=g)
+        cases.append(dict(op="k swDt %s" % qs([g, cfl, dx, h, h * us]), what='sw/timestep', inp=dict(g=g, h=h, q=h * us, cfl=cfl, dx=dx),
+                          f=(lambda ms=ms, cfl=cfl, dx=dx, h=h, us=us: ms.timestep([np.array([h]), np.array([h * us])], np.array([dx]), cfl)),
+                          scale=cfl * dx / (abs(us) + np.sqrt(g * h)), branch='sw'))
+        ga = gens.gamma(ctx.rng); r, ue, p = gens.euler_state(ctx.rng, ga)
+        E = p / (ga - 1) + .5 * r * ue * ue
+        me = impl.euler.euler1d(gamma=ga)
+        cases.append(dict(op="k eDt %s" % qs([ga, cfl, dx, r, r * ue, E]), what='euler1d/timestep', inp=dict(gamma=ga, Q=(r, r * ue, E), cfl=cfl, dx=dx),
+                          f=(lambda me=me, cfl=cfl, dx=dx, r=r, ue=ue, E=E: me.timestep([np.array([r]), np.array([r * ue]), np.array([E])], np.array([dx]), cfl)),
+                          scale=cfl * dx / (abs(ue) + np.sqrt(ga * p / r)) * (1 + (ue ** 2 * r / p)), branch='euler1d'))
+        th = ctx.rng.uniform(0, 2 * np.pi); ux, uy = float(abs(ue) * np.cos(th)), float(abs(ue) * np.sin(th))
+        E2 = p / (ga - 1) + .5 * r * (ux * ux + uy * uy)
+        m2 = impl.euler.euler2d(gamma=ga)
+        cases.append(dict(op="k e2Dt %s" % qs([ga, cfl, dx, r, r * ux, r * uy, E2]), what='euler2d/timestep', inp=dict(gamma=ga, Q=(r, r * ux, r * uy, E2), cfl=cfl, dx=dx),
+                          f=(lambda m2=m2, cfl=cfl, dx=dx, r=r, ux=ux, uy=uy, E2=E2: m2.timestep([np.array([r]), np.array([[r * ux], [r * uy]]), np.array([E2])], dx, cfl)),
+                          scale=cfl * dx / (abs(ue) + np.sqrt(ga * p / r)) * (1 + (ue ** 2 * r / p)), branch='euler2d'))
+    return run_cases(ctx, 'L-dt', cases)
